@@ -39,6 +39,7 @@ type ChurnCase struct {
 	Requests  int      `json:"requests"`   // exchanges per proxy and cycle before the close
 	KeepAlive bool     `json:"keep_alive"` // http users reuse one connection for their requests
 	Keepers   bool     `json:"keepers"`    // the session also owns two proxies that are never closed
+	Flood     bool     `json:"flood"`      // users of the udp kinds keep sending datagrams while the proxy is being closed
 }
 
 var churnTypes = []string{"tcp", "tcp-group", "tcp-any", "udp", "udp-any", "http", "http-group", "https", "tcpmux", "tcpmux-group", "stcp", "sudp", "xtcp"}
@@ -61,6 +62,7 @@ func genChurn(t *rapid.T) ChurnCase {
 	c.Requests = rapid.IntRange(0, 3).Draw(t, "requests")
 	c.KeepAlive = rapid.Bool().Draw(t, "keepalive")
 	c.Keepers = rapid.Bool().Draw(t, "keepers")
+	c.Flood = rapid.Bool().Draw(t, "flood")
 	return c
 }
 
@@ -298,10 +300,43 @@ func runChurn(c ChurnCase) error {
 				httpUser("xg-http.test")
 			}
 		}
+		// users that do not know about the close: datagrams keep arriving while the udp proxies go away
+		stopFlood := make(chan struct{})
+		var floodWG sync.WaitGroup
+		if c.Flood {
+			for _, ty := range c.Types {
+				if ty != "udp" && ty != "udp-any" {
+					continue
+				}
+				for k := 0; k < 2; k++ {
+					conn, e := net.Dial("udp", fmt.Sprintf("127.0.0.1:%d", ports[ty]))
+					if e != nil {
+						continue
+					}
+					floodWG.Add(1)
+					go func() {
+						defer floodWG.Done()
+						defer conn.Close()
+						for {
+							select {
+							case <-stopFlood:
+								return
+							default:
+								_, _ = conn.Write([]byte("flood"))
+							}
+						}
+					}()
+				}
+			}
+			time.Sleep(2 * time.Millisecond)
+		}
 		for _, ty := range c.Types {
 			_ = a.CloseProxy("x-" + ty)
 		}
-		if e := a.Sync(5 * time.Second); e != nil {
+		e := a.Sync(5 * time.Second)
+		close(stopFlood)
+		floodWG.Wait()
+		if e != nil {
 			return fmt.Errorf("%s: session dead after CloseProxy: %v", when, e)
 		}
 		// every user is gone and the proxies are closed: their work connections must be closed by the server
@@ -362,8 +397,11 @@ func classifyChurn(c ChurnCase) fx.Class {
 	if c.Keepers {
 		labels = append(labels, "keepers")
 	}
+	if c.Flood && (lo.Contains(c.Types, "udp") || lo.Contains(c.Types, "udp-any")) {
+		labels = append(labels, "udp-users-sending-during-close")
+	}
 	return fx.Class{NonTrivial: c.Requests > 0 || c.Cycles >= 10,
-		Fingerprint: fmt.Sprint(ts, c.Cycles, c.Pool, c.TCPMux, c.Requests, c.KeepAlive, c.Keepers), Labels: labels}
+		Fingerprint: fmt.Sprint(ts, c.Cycles, c.Pool, c.TCPMux, c.Requests, c.KeepAlive, c.Keepers, c.Flood), Labels: labels}
 }
 
 func TestSameSessionChurn(t *testing.T) {
